@@ -8,7 +8,7 @@ CONSTANTS
   L2 = 0
   MaxArgs = 2
   Fns = {"chars", "glue", "rule", "disc", "lig", "hbox", "insertion", "math", "mark", "kern", "penalty", "vbox", "adjust"}
-  Rich = FALSE
+  Rich = TRUE
   TextLen = 0
   Chars = {}
   IntParts = {}
